@@ -242,3 +242,31 @@ Definition equal_mismatches (cs : list pcase) : list nat :=
      | Some b => if Bool.eqb b eq then [] else [nat_of_int i]
      | None => [nat_of_int i]
      end end) cs.
+
+(* ---- Required slices under AddRequired / RemoveRequired ---- *)
+Inductive wrops := RO | RA (x : bytes) (r : wrops) | RR (x : bytes) (r : wrops).
+Fixpoint rops_of (w : wrops) : list rop :=
+  match w with RO => [] | RA x r => RAdd x :: rops_of r | RR x r => RRemove x :: rops_of r end.
+
+(* one case: the Required slice of a validation (contents, capacity), a sequence of
+   mutator calls, and what was read afterwards — from the original and from the copy when
+   the calls went to the copy DupAtt made; from the original and from the alias when they
+   went to a second ValidationExpr holding the same slice *)
+Inductive rcase := RC (idx : int) (orig : wstrs) (cap : int) (ops : wrops) (o_dup c_dup o_alias c_alias : wstrs).
+
+Definition strs_eqb (a b : list bytes) : bool := list_eqb beq a b.
+
+Definition required_ok (orig : list bytes) (cap : nat) (ops : list rop) (o_dup c_dup o_alias c_alias : list bytes) : bool :=
+  let A0 : arrays := [(0, orig ++ repeat [] (cap - length orig))] in
+  let so := GS 0 (length orig) cap in
+  let st0 := SS A0 1 in
+  let (st1, c) := required_dup st0 so in
+  let (st2, c') := run_rops ops st1 c in
+  let (st3, a') := run_rops ops st0 so in
+  strs_eqb (sread (ss_arrays st2) so) o_dup && strs_eqb (sread (ss_arrays st2) c') c_dup
+  && strs_eqb (sread (ss_arrays st3) so) o_alias && strs_eqb (sread (ss_arrays st3) a') c_alias.
+
+Definition required_mismatches (cs : list rcase) : list nat :=
+  flat_map (fun c => match c with RC i orig cap ops od cd oa ca =>
+     if required_ok (strs_of orig) (nat_of_int cap) (rops_of ops) (strs_of od) (strs_of cd) (strs_of oa) (strs_of ca)
+     then [] else [nat_of_int i] end) cs.
